@@ -18,7 +18,9 @@ for id in $ids; do
       echo "SELFTEST $id $(basename $p): PATCH DOES NOT APPLY"; fail=$((fail+1)); rm -rf "$S"; continue
     fi
     O=$(mktemp -d /var/tmp/verif-out.XXXXXX)
-    out=$(REPO="$S" VERIF_OUT="$O" ./build/govc check --prop "$id" 2>&1); rc=$?
+    # must-fail patches: stop at the first stages for undischarged obligations (faster); must-pass patches: full strength
+    ff=1; [ "$expect" = "PASS" ] && ff=
+    out=$(REPO="$S" VERIF_OUT="$O" VERIF_FAST_FAIL=$ff ./build/govc check --prop "$id" 2>&1); rc=$?
     if [ "$expect" = "PASS" ]; then
       if [ $rc -eq 0 ]; then echo "SELFTEST $id $(basename $p): ok (still passes)"; else echo "SELFTEST $id $(basename $p): FALSE ALARM rc=$rc"; echo "$out" | grep -E "FAILED|BROKEN" | head -5; fail=$((fail+1)); fi
     else
